@@ -57,7 +57,7 @@ func (concurrent) Rule() string {
 		"Part A: each task set runs under 4 seeded schedules (uniform, sticky, always-switch, starve-one, sequential, reverse) of the " +
 		"parked-goroutine scheduler with a yield at every Source.Read, Sink.Write and catalog lookup; every task's output must equal its " +
 		"solo baseline (same task alone on a fresh world) and a public-API digest of all shared objects must be unchanged at every yield " +
-		"and at the end. Part B: the same task sets run free (no harness synchronisation between start and join) 3 times each in a " +
+		"(past step 3000 of a run: at every 32nd) and at the end. Part B: the same task sets run free (no harness synchronisation between start and join) 3 times each in a " +
 		"-race build at GOMAXPROCS 16 and 2; any race report fails, and outputs are compared with the solo baseline as well. One index " +
 		"in 16 (quick tier: 32) also takes the solo baseline of every task that involves Go types in a fresh process (`ionsim solo`): the literal " +
 		"'run alone', free of whatever package-level state (type-keyed registries, lookup tables) earlier tasks left in the worker. " +
